@@ -44,6 +44,8 @@ class Exceptions:
                 out.extend(self.bases_of(b))
         elif t in self.p.records:
             for b in self.p.records[t]["bases"]:
+                if b.get("access", 0) != 0:
+                    continue        # a private / protected base is not accessible to a handler: catch(Base&) does not match
                 bq = b.get("qn") or b.get("t")
                 out.extend(self.bases_of(bq))
         return out
